@@ -2,7 +2,7 @@
 import sys
 
 from engine.prelude import tick, flag, excluded, bits, PART, xh_control
-from sandbox_common import TERMINATIONS, state, fresh, enter, use_real_stream
+from sandbox_common import stub_canary, TERMINATIONS, state, fresh, enter, use_real_stream, stub_reached
 import pedal.sandbox.sandbox as SB
 
 # label of the runtime feedback expected per termination class (documented titles of pedal.sandbox.feedbacks)
@@ -34,10 +34,14 @@ def contain1(t0: bool, t1: bool, t2: bool, t3: bool, text: str, close: bool) -> 
     state["term"], state["text"], state["raised"], state["close"] = term, text, None, close
     so = sys.stdout
     before = len(r.feedback) + len(r.ignored_feedback)
+    calls_before = state["calls"]
     try:
         try:
             enter(sb, entry)
         except Exception:
+            if not stub_reached(calls_before):
+                flag("stub_dead")
+                return True
             return False          # the failure leaked into the grader
     finally:
         state["term"], state["close"] = 0, False
@@ -45,6 +49,9 @@ def contain1(t0: bool, t1: bool, t2: bool, t3: bool, text: str, close: bool) -> 
         while sb._current_patches:
             sb._stop_patches()
         sys.stdout = so
+    if not stub_reached(calls_before):
+        flag("stub_dead")
+        return True
     new = (r.feedback + r.ignored_feedback)[before:]
     name = TERMINATIONS[term][0]
     if name == "normal":
